@@ -340,6 +340,8 @@ func init() {
 	// round 10
 	add("C01", ruleR01_6)
 	add("C14", ruleR01_6)
+	add("C17", ruleR17_14)
+	add("C05", ruleR17_14)
 	add("C01", ruleR03_6)
 	add("C02", ruleR05_1)
 	add("C03", ruleR19_1)
